@@ -171,6 +171,14 @@ pub(crate) mod alloc {
 
         /// Compute a FFT, modifying the vector in place.
         fn fft_in_place(&self, coeffs: &mut Vec<BlsScalar>) {
+            // `X^size = 1` on the domain, so a coefficient vector longer than
+            // the domain folds onto its first `size` entries. Truncating it
+            // would silently evaluate a different polynomial.
+            let size = self.size();
+            for i in size..coeffs.len() {
+                let tail = coeffs[i];
+                coeffs[i % size] += tail;
+            }
             coeffs.resize(self.size(), BlsScalar::zero());
             best_fft(coeffs, self.group_gen, self.log_size_of_group)
         }
